@@ -376,6 +376,9 @@ func (m *ValueMap) Range(f func(key string, value *VMValue) bool) {
 		m.mu.Unlock()
 	}
 
+	if verifOn && verifRangeSorted(read.m, f) {
+		return
+	}
 	for k, e := range read.m {
 		v, ok := e.load()
 		if !ok {
